@@ -43,6 +43,10 @@ func c10(w *core.World, r *core.Report) {
 	r.Rule("R10.7", "key-position tables well-formed", 3)
 	ruleKeyTables(w, r)
 
+	r.Rule("R10.11", "the database rule is asked about the source database, never about the mapped one", 2)
+	ruleFilterDbOnSourceDb(w, r)
+	r.Rule("R10.12", "the prefix trie is read with the decomposition of the key it is written with", 1)
+	ruleTrieSameAlphabet(w, r)
 	r.Rule("R10.10", "the filter tries only grow: no existing node loses children or its terminal mark", 1)
 	ruleTrieGrowOnly(w, r)
 	r.Rule("R10.9", "rows of multi-key commands equal the published key specifications", 1)
@@ -1166,4 +1170,90 @@ func unchangedReturnGuarded(f *ssa.Function, head *ssa.BasicBlock, guard func(c 
 		n++
 	}
 	return n > 0
+}
+
+// ---------------------------------------------------------------- R10.11 the database rule judges the source database
+
+// ruleFilterDbOnSourceDb: the database black list is written in terms of the
+// source's databases. Every call of FilterDb must be given the database the
+// entry or command came from, never what selectDB mapped it to: with a
+// targetDbMap the two differ, and a key of a black-listed source database is
+// forwarded while one of an allowed database is dropped.
+func ruleFilterDbOnSourceDb(w *core.World, r *core.Report) {
+	n := 0
+	for _, g := range w.FuncsIn("syncer") {
+		for _, s := range core.SitesNamed(g, false, "*RedisKeyFilter).FilterDb") {
+			if s.Instr.Parent() != g {
+				continue
+			}
+			n++
+			a := s.Args()
+			mapped := false
+			if len(a) >= 1 {
+				mapped = core.DependsOn(a[0], func(v ssa.Value) bool {
+					c, ok := v.(*ssa.Call)
+					return ok && strings.HasSuffix(core.ResolveCall(c).Name, ").selectDB")
+				})
+			}
+			name := shortName(core.FuncName(outermost(g)))
+			r.Check(!mapped, name+"/FilterDb-on-source-db", s.Pos(), "the database rule is asked about the database selectDB mapped the entry to, not about the source database the black list is written for")
+		}
+	}
+	if n == 0 {
+		r.Fail("FilterDb-on-source-db", token.NoPos, "no call of FilterDb found")
+	}
+}
+
+// ---------------------------------------------------------------- R10.12 the prefix trie is read the way it is written
+
+// ruleTrieSameAlphabet: Insert stores one node per element of the key under
+// some decomposition (Go's range over a string: runes). IsPrefixMatch and
+// Search find what Insert stored only if they decompose the key the same way;
+// a byte-wise walk of a rune-wise trie agrees on ASCII only, so a configured
+// prefix with a non-ASCII character silently stops filtering (or matches
+// foreign bytes).
+func ruleTrieSameAlphabet(w *core.World, r *core.Report) {
+	kinds := map[string]string{}
+	var pos token.Pos
+	for _, m := range []string{"Insert", "IsPrefixMatch", "Search"} {
+		f := fn(w, r, "(*pkg/filter.Trie)."+m)
+		if f == nil {
+			continue
+		}
+		pos = f.Pos()
+		kind := ""
+		for _, in := range core.Instrs(f) {
+			var key ssa.Value
+			switch x := in.(type) {
+			case *ssa.Lookup:
+				if _, isMap := x.X.Type().Underlying().(*types.Map); isMap {
+					key = x.Index
+				}
+			case *ssa.MapUpdate:
+				key = x.Key
+			}
+			if key == nil {
+				continue
+			}
+			k := "other"
+			switch y := core.Unwrap(key).(type) {
+			case *ssa.Extract:
+				if _, isNext := y.Tuple.(*ssa.Next); isNext {
+					k = "rune (range over the string)"
+				}
+			case *ssa.Index, *ssa.Lookup:
+				k = "byte (indexing)"
+			case *ssa.UnOp:
+				k = "byte (indexing)"
+			}
+			if kind != "" && kind != k {
+				kind = "mixed"
+			} else {
+				kind = k
+			}
+		}
+		kinds[m] = kind
+	}
+	same := len(kinds) == 3 && kinds["Insert"] != "" && kinds["Insert"] != "mixed" && kinds["Insert"] == kinds["IsPrefixMatch"] && kinds["Insert"] == kinds["Search"]
+	r.Check(same, "Trie/one-alphabet", pos, "the prefix trie is written and read with different decompositions of the key (%v): what Insert stored is found only for keys on which they agree", kinds)
 }
